@@ -41,6 +41,9 @@ type isoDB struct {
 	remote *sim.StoreRef // the remote writer's replica
 	nw     int
 	pend   []ipfslog.Entry // remote entries not yet delivered
+	// an operation the index cannot read has been replicated into this database: its own view is out of the model
+	poisoned bool
+	lastKey  string
 }
 
 type isoRun struct {
@@ -244,9 +247,22 @@ func (r *isoRun) observe(d *isoDB) isoObs {
 	return o
 }
 
+func (r *isoRun) poisonedNames() []string {
+	out := []string{}
+	for n, d := range r.dbs {
+		if d.poisoned {
+			out = append(out, n)
+		}
+	}
+	sort.Strings(out)
+	return out
+}
+
 func (r *isoRun) write(ref *sim.StoreRef, d *isoDB) (ipfslog.Entry, error) {
 	d.nw++
-	return honestWrite(ref, d.stype, fmt.Sprintf("%s-%d", d.name, d.nw))
+	// the databases of an instance use the same keys: a key written to one must not depend on what the others hold
+	d.lastKey = fmt.Sprintf("k-%d", d.nw)
+	return honestWrite(ref, d.stype, d.lastKey)
 }
 
 // foreignTraffic checks what the instance put on a database's channels and events.
@@ -308,7 +324,7 @@ func (r *isoRun) burst() {
 	msgs := []sent{}
 	for _, n := range names {
 		d := r.dbs[n]
-		if d.closed {
+		if d.closed || d.poisoned {
 			continue
 		}
 		e, err := r.write(d.remote, d)
@@ -316,7 +332,7 @@ func (r *isoRun) burst() {
 			r.violate("write-error", err.Error(), nil, nil)
 			return
 		}
-		msgs = append(msgs, sent{d, fmt.Sprintf("%s-%d", d.name, d.nw), copyEntry(e)})
+		msgs = append(msgs, sent{d, d.lastKey, copyEntry(e)})
 	}
 	if err := sim.Settle(settleTimeout, r.rem); err != nil {
 		r.res.Inconclusive = append(r.res.Inconclusive, r.bid+": burst: "+err.Error())
@@ -324,6 +340,9 @@ func (r *isoRun) burst() {
 	}
 	for _, m := range r.w.Bag() {
 		r.w.Take(m.ID)
+	}
+	if len(msgs) == 0 {
+		return
 	}
 	first := msgs[0].d.local.S
 	recvBefore := h.Count("direct.recv", r.inst.Bus())
@@ -391,8 +410,18 @@ func (r *isoRun) run(b Behaviour, idx int) {
 		switch st.Action {
 		case "Write":
 			if _, err := r.write(d.local, d); err != nil {
+				if d.poisoned {
+					r.res.Stats["writes_refused_by_poisoned_db"]++
+					break
+				}
 				r.violate("write-error", err.Error(), nil, nil)
 				return
+			}
+			if !d.poisoned {
+				r.res.Comparisons++
+				if !strings.Contains(","+r.viewOf(d)+",", ","+d.lastKey+",") {
+					r.violate("interference", fmt.Sprintf("a write of key %s to database %s returned and the database does not show it (databases holding an operation their index cannot read: %v)", d.lastKey, dn, r.poisonedNames()), d.lastKey, r.viewOf(d))
+				}
 			}
 		case "RemoteWrite":
 			var e ipfslog.Entry
@@ -424,6 +453,51 @@ func (r *isoRun) run(b Behaviour, idx int) {
 			head := d.pend[len(d.pend)-1]
 			d.pend = nil
 			r.w.Deliver(&sim.Msg{Kind: "pub", Topic: d.local.Addr, From: r.rem.P.Name, To: r.inst.P.Name, Payload: headsMsg(d.local.Addr, head.(*entry.Entry))})
+		case "Garbage":
+			// the remote writer of d writes a PUT whose value is a JSON object (as another implementation encodes it) on top
+			// of its heads, and one readable entry on top of that; both are replicated
+			hs := d.remote.S.OpLog().Heads().Slice()
+			next, t := []cid.Cid{}, 0
+			for _, h := range hs {
+				next = append(next, h.GetHash())
+				if h.GetClock().GetTime() > t {
+					t = h.GetClock().GetTime()
+				}
+			}
+			g, err := mkEntry(ctx, r.rem, r.rem.DB.Identity(), d.local.Addr, []byte(`{"op":"PUT","key":"g","value":{"a":1}}`), next, t+1)
+			if err != nil {
+				r.violate("write-error", err.Error(), nil, nil)
+				return
+			}
+			d.nw++
+			d.lastKey = fmt.Sprintf("k-%d", d.nw+1)
+			top, err := mkEntry(ctx, r.rem, r.rem.DB.Identity(), d.local.Addr, opPayload(d.stype, d.lastKey), []cid.Cid{g.GetHash()}, t+2)
+			if err != nil {
+				r.violate("write-error", err.Error(), nil, nil)
+				return
+			}
+			d.poisoned = true
+			d.pend = nil
+			mark("%s step %d: an operation the index cannot read replicated into %s", b.ID, si, dn)
+			r.w.Deliver(&sim.Msg{Kind: "pub", Topic: d.local.Addr, From: r.rem.P.Name, To: r.inst.P.Name, Payload: headsMsg(d.local.Addr, top)})
+		case "Foreign":
+			// the remote writer, who may write to d, announces on d's topic an entry whose log id names another database
+			names := []string{}
+			for n := range r.dbs {
+				if n != dn {
+					names = append(names, n)
+				}
+			}
+			sort.Strings(names)
+			o := r.dbs[names[si%len(names)]]
+			d.nw++
+			e, err := mkEntry(ctx, r.rem, r.rem.DB.Identity(), o.local.Addr, opPayload(o.stype, fmt.Sprintf("foreign-%s-%d", dn, d.nw)), []cid.Cid{}, 50)
+			if err != nil {
+				r.violate("write-error", err.Error(), nil, nil)
+				return
+			}
+			mark("%s step %d: head naming %s announced on the topic of %s", b.ID, si, o.name, dn)
+			r.w.Deliver(&sim.Msg{Kind: "pub", Topic: d.local.Addr, From: r.rem.P.Name, To: r.inst.P.Name, Payload: headsMsg(d.local.Addr, e)})
 		case "Reload":
 			if err := d.local.S.Close(); err != nil {
 				r.violate("close-error", err.Error(), nil, nil)
@@ -435,7 +509,7 @@ func (r *isoRun) run(b Behaviour, idx int) {
 				return
 			}
 			d.local = nr
-			if err := nr.S.Load(ctx, -1); err != nil {
+			if err := nr.S.Load(ctx, -1); err != nil && !d.poisoned {
 				r.violate("load-error", err.Error(), nil, nil)
 				return
 			}
